@@ -142,9 +142,10 @@ def ivx_key(op, mon):
     if m:
         t, o = w[4 + int(m.group(1))].split("=")
         kind = {"i": "imm", "r": "reg", "v": "vec"}[o[0]]
-        if kind == "reg" and SIZE.get(int(t), 0) > SIZE.get(int(o[1:]), 9):
-            # which position? register positions are the K9 class; on the stack move_reg_to_stack_arg extends
-            return "invoke:reg-arg-not-extended"
+        if kind == "reg" and int(t) in SIZE and int(o[1:]) in SIZE:
+            args = [x.split("=") for x in w[4:]]
+            ccid = int(w[1])
+            return reg_class_key(True, ccid, ccid == 33, [int(a[0]) for a in args], [a[1] for a in args], int(m.group(1)))
         return "invoke:executed:%s-arg" % kind
     return "invoke:executed:" + mon.split()[0]
 
@@ -222,6 +223,29 @@ def corr_view(ans, nat):
     return ["ok", f["ass"], f["css"], str(max(int(f["csa"]), nat))] + norm_insts(body, css)
 
 
+K9 = "invoke:reg-arg-int32-not-sign-extended"
+
+
+def gp_reg_position(x64, cc, win, tids, k):
+    """is argument k of an x86-64 signature passed in a GP register?  (Win64 / vectorcall: positional, 4; SysV: the first 6 integers)"""
+    if not x64:
+        return False
+    if win:
+        return k < 4
+    return len([t for t in tids[:k] if t in SIZE]) < 6
+
+
+def reg_class_key(x64, cc, win, tids, ops, k):
+    """class of a failing register-fed argument.  Exactly one class is the open finding C06-K9: an int32 register for an int64
+    parameter in a register position (zero- instead of sign-extended).  Every other (parameter, register) pair - 8/16-bit sources
+    again, stack positions, other widths - gets its own key and is reported."""
+    dt, st = tids[k], int(ops[k][1:])
+    if (dt, st) == (40, 38) and gp_reg_position(x64, cc, win, tids, k):
+        return K9
+    pos = "x86-32" if not x64 else "reg" if gp_reg_position(x64, cc, win, tids, k) else "stack"
+    return "invoke:reg-arg:%d-from-%d:%s-position" % (dt, st, pos)
+
+
 def iv_key(op, mon):
     """stable class of a monitor verdict: which lowering path fed the failing argument"""
     w = op.split()
@@ -230,9 +254,12 @@ def iv_key(op, mon):
         k = int(m.group(1))
         t, o = w[5 + k].split("=")
         kind = {"i": "imm", "r": "reg", "v": "vec"}[o[0]]
-        if kind == "reg" and SIZE.get(int(t), 0) > SIZE.get(int(o[1:]), 9) and "m4." not in " ".join(x for x in mon.split()):
-            # a narrower register for a wider integer parameter (register position: nothing extends it; K9)
-            return "invoke:reg-arg-not-extended"
+        if kind == "reg" and int(t) in SIZE and int(o[1:]) in SIZE:
+            args = [x.split("=") for x in w[5:]]
+            x64 = w[1].startswith("x64")
+            ccid = int(w[2])
+            win = ccid in (33, 3) or (w[1] == "x64w" and ccid != 32)
+            return reg_class_key(x64, ccid, win, [int(a[0]) for a in args], [a[1] for a in args], k)
         return "invoke:%s-arg:%s" % (kind, "x64" if w[1].startswith("x64") else "x86")
     if "call area" in mon or "alignment" in mon:
         return "invoke:call-stack-size"
